@@ -510,6 +510,8 @@ def _one_run(check, seed, tier, idx):
                 rec["case"] = r.get("case_explicit") or case
             if r.get("cover"):
                 rec["cover"] = r["cover"]
+            if r.get("tags"):
+                rec["tags"] = r["tags"]
         except Exception as e:  # noqa: BLE001
             rec = {
                 "idx": idx,
@@ -702,6 +704,8 @@ def _absorb(report, recs):
             report["stats"][k] = report["stats"].get(k, 0) + n
         if rec.get("cover"):
             report["cover"].update(rec["cover"])
+        for tk, tv in (rec.get("tags") or {}).items():
+            report.setdefault("tagsets", {}).setdefault(tk, set()).add(tv)
         if rec.get("violation"):
             report["violations"].append(rec)
         if "case" in rec and len(report["samples"]) < 3 and not rec.get("violation"):
@@ -775,6 +779,8 @@ def write_evidence(check, tier, seed, report, wall, exit_code):
     }
     if report["cover"]:
         cov["coverage_pairs_reached"] = len(report["cover"])
+    for tk, tv in sorted((report.get("tagsets") or {}).items()):
+        cov["distinct_" + tk] = len(tv)
     for k, v in report["extra"].items():
         if k not in ("extra_evaluations", "extra_distinct"):
             cov[k] = v
